@@ -307,6 +307,72 @@ func contractSettleInFlight(drv int, rng *rand.Rand) (map[string]interface{}, []
 	return map[string]interface{}{"driver": driverNames[drv], "deposit": dep, "top_up": top, "read_before": first, "read_during_submission": during, "read_after_top_up": duringAfterTopUp, "read_afterwards": afterwards, "on_chain": chain, "withdraw_error": fmt.Sprint(werr)}, mon
 }
 
+// contractFailedSettlement: the settlement transaction of a withdrawal cannot be submitted (the
+// node is unreachable, gas estimation refuses, ...): the withdrawal fails and nothing moved; the
+// wallet asks again and is paid deposit + credit - fee, once.
+func contractFailedSettlement(drv int, rng *rand.Rand) (map[string]interface{}, []string) {
+	bg := context.Background()
+	c := newChainWorld(drv)
+	defer c.Close()
+	var mon []string
+	dep := int64(1000 + rng.Intn(100000))
+	cred := int64(1 + rng.Intn(100000))
+	fee := int64(rng.Intn(3) * 10)
+	// somebody else's deposit is what the earned credit is paid from
+	other := bind.NewKeyedTransactor(keyFor("operator"))
+	if _, err := c.contract.AddBalance(c.tx(other, big.NewInt(10000000))); err != nil {
+		fatal("funding: %v", err)
+	}
+	c.deposit(dep)
+	cp, settle := c.payment(true)
+	wallet := walletOf("w1")
+	acct := store.Account(wallet)
+	c.st.AddAccountBalance(acct, big.NewInt(cred))
+	pay := &payment.PaymentService{NonceStore: c.st.Store, AccountStore: c.st.Store, BalanceStore: cp, Settle: settle}
+	if fee > 0 {
+		pay.WithdrawFee = func(a *big.Int) *big.Int { return new(big.Int).Sub(a, big.NewInt(fee)) }
+	}
+	wAddr := common.HexToAddress(wallet)
+	ether := func() *big.Int { b, _ := c.sim.BalanceAt(bg, wAddr, nil); return b }
+	withdraw := func() error {
+		n := c.next()
+		sig, _ := request.Sign(keyFor("w1"), "pool_withdraw", wallet, n)
+		return pay.Withdraw(bg, sig, wallet, n)
+	}
+	e0 := ether()
+	fails := 1 + rng.Intn(2)
+	c.hb.mu.Lock()
+	c.hb.fail = true
+	c.hb.mu.Unlock()
+	var errs []string
+	for k := 0; k < fails; k++ {
+		err := withdraw()
+		errs = append(errs, fmt.Sprint(err))
+		if err == nil {
+			mon = append(mon, "c07-contract-failed-settlement: the settlement transaction could not be submitted, yet the withdrawal reported success")
+		}
+		b, berr := cp.GetAccountBalance(acct)
+		if berr != nil || b.Deposit.Cmp(big.NewInt(dep)) != 0 || b.Credit.Cmp(big.NewInt(cred)) != 0 {
+			mon = append(mon, fmt.Sprintf("c07-contract-failed-settlement: after a withdrawal whose settlement could not be submitted the pool reads deposit %s / credit %s (error %v); nothing was settled: deposit %d / credit %d", &b.Deposit, &b.Credit, berr, dep, cred))
+		}
+	}
+	c.hb.mu.Lock()
+	c.hb.fail = false
+	c.hb.mu.Unlock()
+	okErr := withdraw()
+	c.sim.Commit()
+	received := new(big.Int).Sub(ether(), e0)
+	want := big.NewInt(dep + cred - fee)
+	on, _ := c.contract.Accounts(nil, wAddr)
+	led, _ := c.st.GetAccountBalance(acct)
+	if okErr != nil {
+		mon = append(mon, fmt.Sprintf("c07-contract-refused: after %d failed settlement submissions the withdrawal is refused although the node is reachable again: %v", fails, okErr))
+	} else if received.Cmp(want) != 0 || on.Balance.Sign() != 0 || led.Credit.Sign() != 0 {
+		mon = append(mon, fmt.Sprintf("c07-contract-paid: after %d failed settlement submissions the next withdrawal put %s into the wallet (deposit %d + credit %d - fee %d = %s owed); left: deposit %s, credit %s", fails, received, dep, cred, fee, want, on.Balance, &led.Credit))
+	}
+	return map[string]interface{}{"driver": driverNames[drv], "deposit": dep, "credit": cred, "fee": fee, "failed_submissions": errs, "then": fmt.Sprint(okErr), "received": received.String()}, mon
+}
+
 // contractCase runs one of the scenarios and keeps the monitors of the property being checked.
 func contractCase(ctx *Ctx, i int, rng *rand.Rand, scenario string, prefixes ...string) {
 	drv := i % 2
@@ -317,6 +383,8 @@ func contractCase(ctx *Ctx, i int, rng *rand.Rand, scenario string, prefixes ...
 		desc, mon = contractKeepalive(drv, rng)
 	case "late-deposit":
 		desc, mon = contractLateDeposit(drv, rng)
+	case "failed-settlement":
+		desc, mon = contractFailedSettlement(drv, rng)
 	default:
 		desc, mon = contractSettleInFlight(drv, rng)
 	}
